@@ -1050,6 +1050,7 @@ void process_option_line(const std::string &config_line, const char *filename,
 #ifndef EMSCRIPTEN
    else if (cmd == "include")
    {
+      static int include_depth    = 0;
       auto       this_line_number = cpd.line_number;
       const auto &include_path    = args[1];
 
@@ -1058,18 +1059,27 @@ void process_option_line(const std::string &config_line, const char *filename,
          OptionWarning w{ filename };
          w("include: path cannot be empty");
       }
+      else if (include_depth >= 16)
+      {
+         OptionWarning w{ filename };
+         w("include: files are nested too deeply, '%s' is ignored", include_path.c_str());
+      }
       else if (is_path_relative(include_path))
       {
          // include is a relative path to the current config file
          UncText ut = std::string{ filename };
          ut.resize(static_cast<unsigned>(path_dirname_len(filename)));
          ut.append(include_path);
+         ++include_depth;
          UNUSED(load_option_file(ut.c_str(), compat_level));
+         --include_depth;
       }
       else
       {
          // include is an absolute path
+         ++include_depth;
          UNUSED(load_option_file(include_path.c_str(), compat_level));
+         --include_depth;
       }
       cpd.line_number = this_line_number;
    }
